@@ -315,7 +315,15 @@ class HyperparameterRangeFiniteRange(HyperparameterRange):
             y_int = np.clip(
                 self._scaling.to_internal(y), self._lower_internal, self._upper_internal
             )
-            return int(round((y_int - self._lower_internal) / self._step_internal))
+            x = int(round((y_int - self._lower_internal) / self._step_internal))
+            if self.cast_int:
+                # Rounding to ``int`` in ``_map_from_int`` can move a value closer to
+                # a neighbouring grid point (in internal space): pick the neighbour
+                # which maps back to ``y``
+                upper_int = self._range_int.upper_bound
+                candidates = [z for z in (x, x - 1, x + 1) if 0 <= z <= upper_int]
+                x = min(candidates, key=lambda z: abs(self._map_from_int(z) - y))
+            return x
 
     def to_ndarray(self, hp: Hyperparameter) -> np.ndarray:
         return self._range_int.to_ndarray(self._map_to_int(hp))
